@@ -1,7 +1,9 @@
 package main
 
 import (
+	"runtime"
 	"strings"
+	"time"
 
 	"github.com/hattya/go.sh/ast"
 	"github.com/hattya/go.sh/parser"
@@ -50,5 +52,21 @@ func aliasH(line string) string {
 		}
 		ch <- "ok"
 	}()
-	return <-ch
+	deadline := time.After(5 * time.Second)
+	tick := time.NewTicker(50 * time.Millisecond)
+	defer tick.Stop()
+	for {
+		select {
+		case o := <-ch:
+			return o
+		case <-deadline:
+			mustRestart = true
+			return "HANG"
+		case <-tick.C:
+			if runtime.NumGoroutine() > 20000 {
+				mustRestart = true
+				return "HANG:runaway-goroutines"
+			}
+		}
+	}
 }
